@@ -39,7 +39,18 @@ def exact_quantities(s, x):
     V = a - b
     cond = X.norm_inf(Lm) * X.norm_inf(Li)
     kappa = (a + abs(b)) / abs(V) if V != 0 else None
-    return dict(L=Lm, Linv=Li, u=u, V=V, cond=cond, kappa=kappa, a=a, det=X.det(Lm))
+    # condition number of the symmetrically scaled matrix D^-1 L D^-1, D = powers of two next to sqrt(L_ii): what the relative
+    # accuracy of a Cholesky determinant depends on (rounding of L_ij is bounded by eps sqrt(L_ii L_jj), Cauchy-Schwarz)
+    import math
+    d = []
+    for i in range(nl):
+        lii = Lm[i][i]
+        ex2 = (lii.numerator.bit_length() - lii.denominator.bit_length()) // 2 if lii > 0 else 0
+        d.append(Fraction(2) ** ex2)
+    Ls = [[Lm[i][j] / (d[i] * d[j]) for j in range(nl)] for i in range(nl)]
+    Lsi = [[Li[i][j] * d[i] * d[j] for j in range(nl)] for i in range(nl)]
+    cond_s = X.norm_inf(Ls) * X.norm_inf(Lsi)
+    return dict(L=Lm, Linv=Li, u=u, V=V, cond=cond, cond_s=cond_s, kappa=kappa, a=a, det=X.det(Lm))
 
 
 def tol_cond(nl, cond, kappa=1):
